@@ -40,7 +40,7 @@ TRUSTED = [
 ]
 ASSUMPTIONS = [
     "values are integers or halves with |v| <= 2^24 (exact as float32; the model's domain, hypothesis of C04_append_stored_partial), never "
-    "equal to the no-data value 1.17549435e-38, lower-case words for text data, or no-data (NaN / ''); cases with larger values are "
+    "equal to the no-data values 1.17549435e-38 / -2147483648 (the integer no-data value an IntegerData is padded with reads as no-data), lower-case words for text data, or no-data (NaN / ''); cases with larger values are "
     "oracle-only",
     "one value kind per data name: d0, d1 floats, d2 text, d3 int32 or float as handed in by each hole",
     "depth tables only (no from-to intervals); property groups are addressed by name; depth arrays of different groups of one hole "
@@ -409,7 +409,8 @@ def gen_case(rng, nops, version):
                 # the name of another data set of the same hole: two data sets under one label, each with its own row;
                 # then new values for the renamed one, and the case ends (its removal would take the sibling's key: rename findings)
                 emit({"op": "rename", "h": h, "d": d, "new": rng.choice(sibs)})
-                n = len(led.data[d]["vals"])
+                dep0 = led.depth_of(led.data[d]["pg"]) if led.data[d]["pg"] in led.pgs else None
+                n = len(led.data[dep0]["vals"]) if dep0 is not None else len(led.data[d]["vals"])
                 emit({"op": "set_values", "h": h, "d": d, "vals": _vals(rng, n, 50, dk), "kind": dk})
                 return False
             emit({"op": "rename", "h": h, "d": d, "new": 4 + rng.below(4)})
@@ -417,7 +418,8 @@ def gen_case(rng, nops, version):
             for _ in range(rng.range(0, 3)):
                 f = rng.weighted([("set", 30), ("reopen", 25), ("remove", 25), ("readd", 20)])
                 if f == "set":
-                    n = len(led.data[d]["vals"])
+                    dep0 = led.depth_of(led.data[d]["pg"]) if led.data[d]["pg"] in led.pgs else None
+                    n = len(led.data[dep0]["vals"]) if dep0 is not None else len(led.data[d]["vals"])
                     emit({"op": "set_values", "h": h, "d": d, "vals": _vals(rng, n, 50, dk), "kind": dk})
                 elif f == "reopen" and not reopened:
                     reopened = True
@@ -540,8 +542,8 @@ def _num(x, api=False):
     if isinstance(x, str):
         return None if x == "" else x
     x = float(x)
-    if x != x or (not api and abs(x - NDV) < 1e-44):
-        return None
+    if x != x or (not api and abs(x - NDV) < 1e-44) or x == -2147483648.0:
+        return None      # NaN, the float no-data value on file, the integer no-data value (padding of an IntegerData)
     if abs(x) < 10**9 and (2 * x).is_integer():
         return int(x) if x.is_integer() else x
     return {"float": x}
